@@ -5,7 +5,7 @@
    options value and the same extension object.  That the input bytes are not written and that separate processes agree are
    observations of the engine (not expressible in a pure model): see evidence/C06.json. *)
 From Coq Require Import Permutation.
-From GV Require Import Base.Prelude Model.RtTypes Model.RtWire Model.Realtime Model.Static Model.Purity Proofs.PurityProofs Gen.Footprint.
+From GV Require Import Base.Prelude Model.RtTypes Model.RtWire Model.Realtime Model.Static Model.Purity Proofs.PurityProofs Gen.Footprint Gen.Comparators Proofs.ComparatorProofs.
 
 (* ---- determinism: no output of ParseRealtime depends on the order in which any map was iterated ---- *)
 Theorem C06_realtime_order_free : forall sh, fair sh -> forall cm tz cfg m,
@@ -100,3 +100,13 @@ Example C06_package_state_modelled : package_vars = [
   ("realtime.go", "startDateRegex");
   ("realtime.go", "startTimeRegex")].
 Proof. reflexivity. Qed.
+
+(* ---- every collection that is assembled by ranging over a map is sorted afterwards, by comparison code that is TRANSLATED
+   from the source on every run (Gen/Comparators.v) and proved to be the comparison of the model; the order-freedom
+   theorems above are about sorting with exactly these ---- *)
+Theorem C06_sorting_from_source :
+  (forall a b, gen_trip_less a b = trip_less a b) /\ (forall a b, gen_vehicle_less a b = vid_less a b) /\
+  (forall a b, gen_service_less a b = String.ltb (sv_id a) (sv_id b)) /\ (forall a b, gen_stop_time_less a b = (st_seq a <? st_seq b)) /\
+  (forall a b, gen_shape_row_less a b = (sr_seq a <? sr_seq b)) /\ (forall a b, gen_shape_less a b = String.ltb (sh_id a) (sh_id b)).
+Proof. exact (conj gen_trip_less_ok (conj gen_vehicle_less_ok (conj gen_service_less_ok (conj gen_stop_time_less_ok (conj gen_shape_row_less_ok gen_shape_less_ok))))). Qed.
+Print Assumptions C06_sorting_from_source.
